@@ -131,6 +131,42 @@ def gen_case_observer_race(seed, tier, index=0):
             'sched_seed': rr.getrandbits(48)}
 
 
+def gen_case_busy_pool(seed, tier, index=0):
+    """small profile aimed at one window: the controller's notification pool has one worker and that worker is held up
+    (a component whose exit needs the stability wait, or a period of file-system instability) while other components
+    die - so several notifications of the same component queue up and are then handled back to back"""
+    rr = random.Random(seed)
+    comps, plan = [], {}
+    for i in range(rr.choice([1, 1, 2])):
+        name = 'AB'[i]
+        comps.append({'name': name, 'stage': 0, 'refs': []})
+        plan[name] = {'default': {'dur': rr.choice([2.0, 8.0]), 'exit': 'Success'},
+                      'execs': [{'dur': rr.choice([0.3, 2.0]), 'exit': rr.choice(['ResourceExhausted', 'SystemIssue', 'UnknownIssue', 'Killed'])}
+                                for _ in range(rr.choice([1, 2]))]}
+    has_producer = rr.random() < 0.25
+    comps.append({'name': 'C', 'stage': 0, 'refs': [comps[0]['name']] if has_producer else [],
+                  'repeat': {'interval': rr.choice([1, 3]), 'retries': rr.choice([0, 0, 0, 1])}})
+    retries = comps[-1]['repeat']['retries']
+    plan['C'] = {'default': {'dur': rr.choice([0.3, 2.0, 5.0]), 'exit': 'Success'},
+                 # mostly: exactly as many failures as it takes for the engine to give up with ResourceExhausted
+                 'execs': [{'dur': rr.choice([0.3, 2.0]), 'exit': 'ResourceExhausted'}
+                           for _ in range(retries + 1 if rr.random() < 0.7 else rr.choice([1, 2, 3]))]
+                 + [{'dur': rr.choice([0.3, 5.0]), 'exit': rr.choice(['Success', 'Success', 'KnownIssue', 'ResourceExhausted'])}]}
+    if rr.random() < 0.3:
+        comps.append({'name': 'N', 'stage': 0, 'refs': [rr.choice(['C', comps[0]['name']])]})
+        plan['N'] = {'default': {'dur': 0.3, 'exit': 'Success'}}
+    knobs = common.knobs_from(rr, tier)
+    knobs['workers'] = 1
+    knobs['launch_delay'] = rr.choice([0.0, 0.0, knobs.get('launch_delay', 0.0)])
+    if rr.random() < 0.85:
+        # notifications arrive late and in bursts when the scheduler that delivers them is held up
+        knobs['slow_pool'] = [rr.choice([1, 2, 3, 3, 3, 4, 5, 6, 7, 7, 7]), rr.choice([0.1, 0.2, 0.5])]
+        knobs['preempt_p'] = rr.choice([0.0, 0.0, 0.0, knobs['preempt_p']])
+    return {'comps': comps, 'stage_opts': {}, 'plan': plan, 'hook': {}, 'hook_file': False, 'knobs': knobs,
+            'sched_seed': rr.getrandbits(48), 'pauses': [], 'slow_wake_p': 0.0,
+            'instability': [rr.choice([0.0, 1.0, 5.0])] if rr.random() < 0.85 else [], 'complete_at': None}
+
+
 def gen_case_repeating_restart(seed, tier, index=0):
     """C12 sub-profile: the single restart of a repeating engine whose last task exits ResourceExhausted, with restart
     submissions that fail quickly, slowly (long enough for 'alive' to be published) or succeed"""
